@@ -213,6 +213,10 @@ package parser
 // A newline at the top level (no open construct, no pending here-document,
 // not inside an alias) ends the call: lexing stops and nothing more is read.
 //@ func (*lexer).lexToken
+//@   ensures[C07 C03] after-a-pipe-the-next-command: tok == '|' && result != nil ==> returnsmethod("lexNextCmd")
+//@   ensures[C07 C03] after-an-and-or-operator-a-pipeline: (tok == AND || tok == OR) && result != nil ==> returnsmethod("lexPipeline")
+//@   ensures[C07 C03] after-a-separator-a-pipeline: tok == '&' || tok == ';' ==> returnsmethod("lexPipeline")
+//@   ensures[C07 C08] pending-here-documents-are-read-at-the-newline: tok == '\n' && old(l.heredoc.n) != 0 ==> returnsmethod("lexHeredoc")
 //@   requires tok != NAME && tok != ASSIGNMENT_WORD
 //@   ensures[C07] newline-ends-the-command: tok == '\n' && old(l.heredoc.n) == 0 && old(len(l.aliases)) == 0 && old(len(l.stack)) == 0 ==> result == nil && srcpos() == old(srcpos())
 //@   requires tok == WORD || tok == IO_NUMBER || tok <= 0 || tokready(l)
@@ -232,6 +236,8 @@ package parser
 //@   requires tok == IO_NUMBER ==> len(l.word) == 1 && l.word[0] is *ast.Lit
 //@   requires tok != WORD && tok != IO_NUMBER && tok >= 0 ==> len(l.word) == 0
 //@ func (*lexer).lexCmdPrefix
+//@   site SUBST = call parser.(*lexer).subst
+//@   ensures[C17] after-a-substitution-the-prefix-continues: site(SUBST) && siteret(SUBST) ==> returnsmethod("lexCmdPrefix")
 //@   site ASSIGN = call parser.(*lexer).isAssign
 //@   assert[C17] at call parser.(*lexer).subst: assignment-word-first: site(ASSIGN) && !siteret(ASSIGN)
 //@   site OP = call parser.(*lexer).emit#1
@@ -242,15 +248,19 @@ package parser
 // A word becomes a function NAME (or a for-loop variable) only after isName
 // has accepted its text.
 //@ func (*lexer).lexSimpleCmd
+//@   site SUBST = call parser.(*lexer).subst
+//@   ensures[C17] after-a-substitution-a-pipeline-starts-again: site(SUBST) && siteret(SUBST) ==> returnsmethod("lexPipeline")
 //@   site ISNAME = call parser.(*lexer).isName
 //@   assert[C03] at call parser.(*lexer).emit#2: a-function-name-is-a-name: arg1 == NAME && site(ISNAME) && siteret(ISNAME)
 //@   site ASSIGN = call parser.(*lexer).isAssign
 //@   assert[C17] at call parser.(*lexer).subst: assignment-word-first: site(ASSIGN) && !siteret(ASSIGN)
 //@   requires len(l.word) >= 1
 //@ func (*lexer).lexSubshell
+//@   ensures[C07] hands-over-to-the-start-of-a-pipeline: returnsmethod("lexPipeline")
 //@   ensures[C07] opens-one-construct: len(l.stack) == old(len(l.stack)) + 1
 //@   requires tokready(l)
 //@ func (*lexer).lexGroup
+//@   ensures[C07] hands-over-to-the-start-of-a-pipeline: returnsmethod("lexPipeline")
 //@   ensures[C07] opens-one-construct: len(l.stack) == old(len(l.stack)) + 1
 //@   requires tokready(l)
 //@ func (*lexer).lexArithEval
@@ -276,26 +286,34 @@ package parser
 //@   requires tokready(l)
 //@   assert[C17] at call parser.(*lexer).subst: reserved-word-first: !(tok == WORD && len(l.word) == 1 && l.word[0] is *ast.Lit && l.word[0].(*ast.Lit).Value == "in")
 //@ func (*lexer).lexCaseBreak
+//@   ensures[C07 C03] next-case-item-or-stop: result != nil ==> returnsmethod("lexCaseItem")
 //@   requires tokready(l)
 //@ func (*lexer).lexIf
+//@   ensures[C07] hands-over-to-the-start-of-a-pipeline: returnsmethod("lexPipeline")
 //@   ensures[C07] opens-one-construct: len(l.stack) == old(len(l.stack)) + 1
 //@   requires tokready(l)
 //@ func (*lexer).lexElif
+//@   ensures[C07 C03] continues-with-a-pipeline-or-stops: result != nil ==> returnsmethod("lexPipeline")
 //@   ensures[C07] same-nesting-depth: len(l.stack) == old(len(l.stack)) && (forall j: 0 <= j && j < len(l.stack) - 1 ==> l.stack[j] == old(l.stack[j]))
 //@   requires tokready(l)
 //@ func (*lexer).lexThen
+//@   ensures[C07 C03] continues-with-a-pipeline-or-stops: result != nil ==> returnsmethod("lexPipeline")
 //@   ensures[C07] same-nesting-depth: len(l.stack) == old(len(l.stack)) && (forall j: 0 <= j && j < len(l.stack) - 1 ==> l.stack[j] == old(l.stack[j]))
 //@   requires tokready(l)
 //@ func (*lexer).lexElse
+//@   ensures[C07 C03] continues-with-a-pipeline-or-stops: result != nil ==> returnsmethod("lexPipeline")
 //@   ensures[C07] same-nesting-depth: len(l.stack) == old(len(l.stack)) && (forall j: 0 <= j && j < len(l.stack) - 1 ==> l.stack[j] == old(l.stack[j]))
 //@   requires tokready(l)
 //@ func (*lexer).lexWhile
+//@   ensures[C07] hands-over-to-the-start-of-a-pipeline: returnsmethod("lexPipeline")
 //@   ensures[C07] opens-one-construct: len(l.stack) == old(len(l.stack)) + 1
 //@   requires tokready(l)
 //@ func (*lexer).lexUntil
+//@   ensures[C07] hands-over-to-the-start-of-a-pipeline: returnsmethod("lexPipeline")
 //@   ensures[C07] opens-one-construct: len(l.stack) == old(len(l.stack)) + 1
 //@   requires tokready(l)
 //@ func (*lexer).lexDo
+//@   ensures[C07 C03] continues-with-a-pipeline-or-stops: result != nil ==> returnsmethod("lexPipeline")
 //@   ensures[C07] same-nesting-depth: len(l.stack) == old(len(l.stack)) && (forall j: 0 <= j && j < len(l.stack) - 1 ==> l.stack[j] == old(l.stack[j]))
 //@   requires tokready(l)
 //@ func (*lexer).lexFuncDef
